@@ -154,15 +154,31 @@ func checkC04(ci interface{}, st *Stats) error {
 	}
 	// Sentence returns the sequence [result, EOF]; a root that is the result itself would satisfy
 	// the property just as well
-	child := node
-	if rn, ok := node.(*ast.NonTerminalNode); ok && len(rn.Children()) == 2 && rn.Children()[1].Token() == "EOF" {
-		child = rn.Children()[0]
+	// (should Parse ever hand back several full parses as a list of alternatives, each of them has
+	// to be such a tree; the property does not say how many are returned)
+	var child parsley.Node
+	for ai, alt := range alternatives(node) {
+		ch := alt
+		if rn, ok := alt.(*ast.NonTerminalNode); ok && len(rn.Children()) == 2 && rn.Children()[1].Token() == "EOF" {
+			ch = rn.Children()[0]
+		}
+		if int(alt.Pos()) < base || int(alt.Pos()) > base+lead || int(alt.ReaderPos()) != base+len(in) {
+			return fmt.Errorf("returned alternative %d spans %d..%d, want 0..%d", ai, int(alt.Pos())-base, int(alt.ReaderPos())-base, len(in))
+		}
+		if !trims && !NewValidator(ref, base).Valid(g.Rules[0], ch, 0) {
+			return fmt.Errorf("the returned tree is no derivation of N0: %s", RenderNode(ch, base))
+		}
+		if int(ch.ReaderPos()) != base+len(in) {
+			return fmt.Errorf("the selected parse ends at %d, not at the end of input", int(ch.ReaderPos())-base)
+		}
+		if ai == 0 {
+			child = ch
+		} else {
+			st.Class("Parse returned a list of full parses")
+		}
 	}
-	if !trims && !NewValidator(ref, base).Valid(g.Rules[0], child, 0) {
-		return fmt.Errorf("the returned tree is no derivation of N0: %s", RenderNode(child, base))
-	}
-	if int(child.ReaderPos()) != base+len(in) {
-		return fmt.Errorf("the selected parse ends at %d, not at the end of input", int(child.ReaderPos())-base)
+	if child == nil {
+		return fmt.Errorf("Parse returned an empty list of alternatives")
 	}
 	tr := NewTreeRef(ref, 50, 8)
 	if tr.Capped || len(tr.T[0][0]) > 1 {
